@@ -149,7 +149,7 @@ func sat(c string, x atom) bool {
 // ---- alphabet --------------------------------------------------------------
 
 var atomSrcs = []string{
-	"-1", "0", "1", "2", "3", "0.5", "1.0", "1.5", "2.0", "2.5", "256", "-129",
+	"-1", "0", "1", "2", "3", "0.5", "1.0", "1.5", "2.0", "2.5", "-1.5", "256", "-129",
 	`"a"`, `"b"`, `"ab"`, `'a'`, `'b'`, "true", "false", "null",
 }
 
